@@ -27,5 +27,18 @@ package common
 //@ -- Witness2 is the constant-true predicate: it only gives the solver a term to instantiate an existential pair with (trigger)
 //@ uninterp Witness2(a mathint, b mathint) bool
 //@ axiom forall a, b int :: {Witness2(a, b)} Witness2(a, b)
+//@ uninterp Witness1(a mathint) bool
+//@ axiom forall a int :: {Witness1(a)} Witness1(a)
 
 //@ spec NoWrap(offset int, ks []*crypto.Key) bool = offset + len(ks) < 9223372036854775808
+
+// ───────────── the spent outputs as seen through the store interface (see zz_contracts_c01_verif.go for the idea) ─────────────
+//@ uninterp StoreKeyCount(s any, h crypto.Hash, i mathint) mathint
+//@ uninterp StoreKeyVal(s any, h crypto.Hash, i mathint, j mathint) crypto.Key
+//@ uninterp StoreThreshold(s any, h crypto.Hash, i mathint) mathint
+//@ spec InKeyCount(s any, in *Input) mathint = StoreKeyCount(s, in.Hash, in.Index)
+//@ spec InKeyVal(s any, in *Input, j mathint) crypto.Key = StoreKeyVal(s, in.Hash, in.Index, j)
+//@ spec InThreshold(s any, in *Input) mathint = StoreThreshold(s, in.Hash, in.Index)
+
+//@ -- typing fact: the signature maps of the transaction are objects that exist when the call is made (none of them is a map the callee allocates)
+//@ spec SigMapsExist(tx *SignedTransaction) bool = forall k int :: 0 <= k && k < len(tx.SignaturesMap) ==> allocated(tx.SignaturesMap[k])
